@@ -15,6 +15,14 @@ def first_para(path):
     return t[:600]
 
 
+# changes whose description reached the coordinator before their first evaluation and led to a strengthening first:
+# the checks AS THEY WERE could not have caught them (checked by reading the check), so they count as first-pass misses
+PRE_STRENGTHENED = {
+    "C10-r2-1": "the x+p mutation was only applied after signing (bytes are hashed into the ring message, so it was rejected for the wrong reason); the model prover now emits x+p before signing over an adversarial generator",
+    "C09-r2-1": "rewind was only called with all optional outputs present; now every optional-output combination x creator/foreign nonce",
+    "C09-r2-2": "no message block was ever chosen against the stream; now blocks crafted so that stream XOR message is n, n+1, 2^256-1",
+    "C07-r2-2": "rewind was only called with all optional outputs present (C07 and C09); now also with none / value only / blind only and a foreign nonce",
+}
 rows = []
 for name in sorted(os.listdir(SD)):
     d = os.path.join(SD, name)
@@ -27,6 +35,16 @@ for name in sorted(os.listdir(SD)):
     confirmed = bool(e.get("applies")) and e.get("demo_clean", {}).get("rc") == 0 and e.get("demo_patched", {}).get("rc") not in (0, None) \
         and "100% tests passed" in str(e.get("ctest", {}).get("summary", ""))
     caught = [c for c, r in e.get("checks_run", {}).items() if r["rc"] == 1 and r["violations"] > 0]
+    first_pass = "caught"
+    earlier = e.get("earlier_checks_run") or []
+    if earlier:
+        c0 = [c for c, r in (earlier[0].get("checks_run") or {}).items() if r["rc"] == 1 and r["violations"] > 0]
+        if not c0:
+            first_pass = "MISSED (first evaluation %s); strengthened, then re-evaluated" % earlier[0].get("at")
+    if name in PRE_STRENGTHENED:
+        first_pass = "MISSED by the checks as they were (%s)" % PRE_STRENGTHENED[name]
+    if not caught:
+        first_pass = "missed"
     meta = {
         "breaks_property": prop,
         "needs_to_manifest": notes,
@@ -40,6 +58,7 @@ for name in sorted(os.listdir(SD)):
         },
         "checks_run_against_it": e.get("checks_run", {}),
         "caught_by": caught,
+        "first_pass": first_pass,
         "evaluated_at": e.get("at"),
     }
     json.dump(meta, open(os.path.join(d, "meta.json"), "w"), indent=1)
@@ -47,9 +66,9 @@ for name in sorted(os.listdir(SD)):
     for c in caught:
         first = e["checks_run"][c]["first"][:110]
         break
-    rows.append((name, "yes" if confirmed else "NO", ", ".join(caught) or "**missed**", first, notes[:120]))
+    rows.append((name, "yes" if confirmed else "NO", ", ".join(caught) or "**missed**", first, "" if first_pass == "caught" else first_pass))
 
-print("| seeded change | confirmed (applies, suite passes, demo flips) | caught by | first violation |")
-print("|---|---|---|---|")
+print("| seeded change | confirmed (applies, suite passes, demo flips) | caught by | first violation | first pass |")
+print("|---|---|---|---|---|")
 for r in rows:
-    print("| %s | %s | %s | %s |" % (r[0], r[1], r[2], r[3].replace("|", "/")))
+    print("| %s | %s | %s | %s | %s |" % (r[0], r[1], r[2], r[3].replace("|", "/"), r[4].replace("|", "/")))
